@@ -16,7 +16,7 @@ from .utils import (
     str_to_bytes,
 )
 
-from .coo_utils import CooArray, COO_QUICKSORT_LIMIT
+from .coo_utils import CooArray, COO_QUICKSORT_LIMIT, COO_MIN_SIZE
 
 import numpy as np
 import numba
@@ -470,7 +470,9 @@ class BaseCooccurrenceVectorizer(BaseEstimator, TransformerMixin):
             coo_sizes = (self.coo_initial_bytes // 20) // np.sum(average_window)
             self._coo_sizes = np.array(coo_sizes * average_window, dtype=np.int64)
 
-        self._coo_sizes = np.divmod(self._coo_sizes, self.n_threads)[0]
+        self._coo_sizes = np.maximum(
+            np.divmod(self._coo_sizes, self.n_threads)[0], COO_MIN_SIZE
+        )
 
     def _generate_chunk_boundaries(self, data, n_threads):
         token_list_sizes = np.array([len(x) for x in data])
